@@ -62,7 +62,7 @@ impl Bvd {
     }
 
     fn capacity_from_bit_len(bit_length: usize) -> usize {
-        Self::capacity_from_byte_len((bit_length + 7) / 8)
+        bit_length / Self::BIT_UNIT + usize::from(bit_length % Self::BIT_UNIT != 0)
     }
 
     /// Reserve will reserve room for at least `additional` bits in the bit vector. The actual
@@ -80,7 +80,10 @@ impl Bvd {
     /// assert!(bv.capacity() == 128);
     /// ```
     pub fn reserve(&mut self, additional: usize) {
-        let new_capacity = self.length + additional;
+        let new_capacity = self
+            .length
+            .checked_add(additional)
+            .expect("capacity overflow");
         if Self::capacity_from_bit_len(new_capacity) > self.data.len() {
             // TODO: in place reallocation
             let mut new_data: Vec<u64> = repeat(0)
@@ -300,7 +303,7 @@ impl BitVector for Bvd {
         length: usize,
         endianness: Endianness,
     ) -> std::io::Result<Self> {
-        let num_bytes = (length + 7) / 8;
+        let num_bytes = length / 8 + usize::from(length % 8 != 0);
         let mut buf: Vec<u8> = repeat(0u8).take(num_bytes).collect();
         reader.read_exact(&mut buf[..])?;
         let mut bv = Self::from_bytes(&buf[..], endianness)
